@@ -807,10 +807,16 @@ def run_net(rec):
             dim_x = 0 if rec["eq_type"] == "ODE" else rec["struct"]["dimx"]
             eqp = {"k1": jnp.array(float(rec["th"][0])), "k2": jnp.array(float(rec["th"][1]))}
             if rec["wrapper"] == "pinn":
+                # the solution slice given as a plain integer / omitted: the factory must normalise it to a slice that keeps the
+                # component axis (k -> k:k+1, None -> 0:nout); the wrapper's own value does not depend on it
+                ss = (nout - 1) if rec["depth"] == 2 else None
                 u = jinns.utils.create_PINN(jax.random.PRNGKey(0), eqx_list, rec["eq_type"], dim_x, input_transform=it, output_transform=ot,
-                                            shared_pinn_outputs=shared)
+                                            shared_pinn_outputs=shared, slice_solution=ss)
                 if shared is not None:
                     u = u[0] if rec["shared"] in ("first", "firstint") else u[1]
+                want = slice(ss, ss + 1, None) if ss is not None else slice(0, nout, None)
+                if u.slice_solution != want:
+                    raise RuntimeError(f"SliceSolutionNotNormalised: create_PINN(slice_solution={ss}) stores {u.slice_solution}, expected {want}")
                 nn = _set_linear_ints(u.init_params(), rec["layers"])
             else:
                 # the designated parameters are consumed in the order of the hyperparams LIST (rec.hth follows that order),
@@ -1024,7 +1030,13 @@ def run_sysgradbatch(task):
         loss_all, pd, batch = build_sysloss(rec, dk_dict=dkd(full), onehot="*")
         ref_vals = loss_all.evaluate(pd, batch)[1]
         tnames = ["dyn_loss"] + terms
-        G = [[fracs(v) for v in flat(jax.grad(lambda p: loss_all.evaluate(p, batch)[1]["dyn_loss"])(pd))]]
+        # reference gradient of the DYNAMIC term measured with every group selected (the keys of the dynamic term of a system are not a
+        # constructor argument: they are the library's default, "network parameters only" - which the expected selection below encodes)
+        import equinox as eqx
+        from jinns.parameters import ParamsDict
+        full_dyn = eqx.tree_at(lambda l: l.derivative_keys_dyn_loss.dyn_loss, loss_all,
+                               ParamsDict(nn_params=True, eq_params={"k1": True, "k2": True}))
+        G = [[fracs(v) for v in flat(jax.grad(lambda p: full_dyn.evaluate(p, batch)[1]["dyn_loss"])(pd))]]
         for u, n in enumerate(names):
             l1, _, _ = build_sysloss(rec, dk_dict=dkd(full), onehot=n)
             for t in terms:
@@ -1051,7 +1063,7 @@ def run_sysgradbatch(task):
         masks = [[mk[u * len(terms) + ti] for ti in range(len(terms))] for u in range(2)]
         out = dict(kind="grad", lkind=lk, form="bool", G=G, ref=ref, exc="", src=m.get("src", "tlc"))
         # selection per (pair, gradient group): the network bit of an unknown's term selects that unknown's network only
-        sel = [[True, True, True, True]]
+        sel = [[True, True, False, False]]        # dynamic term of a system: default keys = the networks only
         for u in range(2):
             for ti in range(len(terms)):
                 b = masks[u][ti]
